@@ -472,6 +472,7 @@ impl<'gc, 'r> Env<'gc, 'r> {
                 frees: 0,
                 born_phase,
                 born_step: ex.step_ix as u32,
+                fault_exempt: false,
             })
         });
         ex.cov.allocs += 1;
